@@ -153,7 +153,7 @@ impl InterfaceInner {
                 IpCidr::Ipv6(cidr) if cidr.address() != Ipv6Address::LOCALHOST => {
                     // Take the lower order 24 bits of the IPv6 address and
                     // append those bits to FF02:0:0:0:0:1:FF00::/104.
-                    addr.octets()[14..] == cidr.address().octets()[14..]
+                    addr == cidr.address().solicited_node()
                 }
                 _ => false,
             }
@@ -487,7 +487,12 @@ impl InterfaceInner {
                         .fill(ip_repr.src_addr.into(), lladdr, self.now);
                 }
 
-                if self.has_solicited_node(ip_repr.dst_addr) && self.has_ip_addr(target_addr) {
+                // The solicitation is sent to the solicited-node multicast address or,
+                // for reachability probes, to the unicast address itself.
+                if (self.has_solicited_node(ip_repr.dst_addr)
+                    || self.has_ip_addr(ip_repr.dst_addr))
+                    && self.has_ip_addr(target_addr)
+                {
                     let advert = Icmpv6Repr::Ndisc(NdiscRepr::NeighborAdvert {
                         flags: NdiscNeighborFlags::SOLICITED,
                         target_addr,
